@@ -1,0 +1,26 @@
+//go:build verif
+
+package websvc
+
+import (
+	"net/http"
+	"net/url"
+	"time"
+
+	"github.com/AdguardTeam/AdGuardDNS/internal/errcoll"
+)
+
+// VerifC19ShouldProxy exposes shouldProxy to the verification harness.
+func VerifC19ShouldProxy(method, urlPath string) (ok bool) {
+	return shouldProxy(method, urlPath)
+}
+
+// VerifC19LinkedIPHandler exposes linkedIPHandler to the verification harness.
+func VerifC19LinkedIPHandler(
+	apiURL *url.URL,
+	errColl errcoll.Interface,
+	name string,
+	timeout time.Duration,
+) (h http.Handler) {
+	return linkedIPHandler(apiURL, errColl, name, timeout)
+}
